@@ -220,6 +220,9 @@ def build_lean():
                 attribute_lean_failure(res)
             except Exception as e:
                 res["attribution_error"] = str(e)[:300]
+            finally:
+                # the scratch copy (the only place a `sorry` is ever written) does not outlive the analysis
+                shutil.rmtree(os.path.join(BUILD, "lean-patched"), ignore_errors=True)
         # the driver does not depend on proof files: make sure it is current even if a proof failed
         sh(["lake", "build", "pfv-driver"], cwd=LEAN, timeout=3000)
     # forbidden constructs (outside comments)
